@@ -135,8 +135,8 @@ def record_history(pa, rng, length, max_obj=4, ops_weights=None):
                     view = objs[o][a]
                     view.clear()
                     view.add(Unit(Segment(100.0, 101.0), "ghost"))
-        except (ValueError, KeyError) as ex:
-            e["out"] = type(ex).__name__
+        except Exception:          # any exception class: the call was rejected
+            e["out"] = "rejected"
         e["obs"], e["eq"] = observe(objs)
         events.append(e)
     return events
@@ -185,6 +185,6 @@ def apply_event(pa, objs, e):
             objs[a[0]].reset_bounds()
         elif op == "drop":
             del objs[a[0]]
-    except (ValueError, KeyError) as ex:
-        out = type(ex).__name__
+    except Exception:
+        out = "rejected"
     return out
